@@ -231,6 +231,17 @@ func Draw(t *rapid.T, o Opts) (*Bundle, map[string]bool) {
 	return g.b, g.Classes
 }
 
+// optionNumber sometimes writes an explicit number on an enum option or entity
+// status: one that differs from its position, repeats, or is zero.
+func (g *gen) optionNumber(o *EnumOption) {
+	if g.masked("enum-option-number") || rapid.IntRange(0, 7).Draw(g.t, "optnumber") != 0 {
+		return
+	}
+	n := int32(rapid.SampledFrom([]int{0, 1, 2, 3, 5, 9, 100}).Draw(g.t, "optnumberv"))
+	o.Number = &n
+	g.cls("enum-option-explicit-number")
+}
+
 func (g *gen) enumBody(name, hint string) *Enum {
 	t := g.t
 	e := &Enum{Name: name, Desc: g.desc()}
@@ -255,6 +266,7 @@ func (g *gen) enumBody(name, hint string) *Enum {
 			}
 			g.cls("enum-option-info")
 		}
+		g.optionNumber(o)
 		e.Options = append(e.Options, o)
 	}
 	return e
@@ -1073,7 +1085,9 @@ func (g *gen) entity() *Entity {
 	words := rapid.Permutation(enumWords).Draw(t, "statuswords")
 	ns := rapid.IntRange(1, 5).Draw(t, "nstatus")
 	for i := 0; i < ns; i++ {
-		e.Statuses = append(e.Statuses, &EnumOption{Name: words[i], Desc: g.desc()})
+		st := &EnumOption{Name: words[i], Desc: g.desc()}
+		g.optionNumber(st)
+		e.Statuses = append(e.Statuses, st)
 	}
 	ne := rapid.IntRange(0, 4).Draw(t, "nevents")
 	evNames := rapid.Permutation([]string{"Create", "Update", "Archive", "Approve", "Cancel"}).Draw(t, "evnames")
